@@ -7,6 +7,9 @@
 From Cas Require Import History.
 From CasProofs Require Import BaseProofs SMapProofs IndexProofs StoreFS StoreInv StoreWrite StoreRead StoreHist.
 From CasProofs Require DiskInv CrashInv CrashOpen.
+From Cas Require Conc.
+From CasProofs Require ConcInv.
+From CasProps Require ConcSetting.
 
 Theorem C12_apply_preserves_exactness :
   forall cmp : bytes -> bytes -> comparison,
@@ -53,6 +56,26 @@ Theorem C12_total_bytes_is_sum_over_known :
     tb s = fold_right (fun h a => sizeof h + a) 0 (map fst (rc s)).
 Proof. exact C12_tb_is_rc_sum. Qed.
 Print Assumptions C12_total_bytes_is_sum_over_known.
+
+
+(* ... and in EVERY reachable state of the concurrent model (any number of threads, any programs,
+   every schedule, also under injected faults): the index invariant holds, hence - by the theorems
+   above - the reference counts are the numbers of keys per blob, unique_blobs and total_bytes are
+   those a recount would give *)
+Theorem C12_exact_in_every_concurrent_state :
+  forall H cmp nops bad ckbad thr0 cas0, ConcSetting.ConcSetting H cmp thr0 cas0 ->
+  forall g, ConcInv.reachable H cmp nops bad ckbad thr0 cas0 g ->
+    IdxInv cmp (Conc.g_idx g)
+    /\ (forall (h : bytes) (c : N), rc_get (rc (Conc.g_idx g)) h = Some c <-> c = count_refs (km (Conc.g_idx g)) h /\ 0 < c)
+    /\ (forall x, ub (recompute_stats (Conc.g_idx g) x) = ub (Conc.g_idx g) /\ tb (recompute_stats (Conc.g_idx g) x) = tb (Conc.g_idx g)).
+Proof.
+  intros H cmp nops bad ckbad thr0 cas0 (A & B & C & D & E & F & G & I) g R.
+  pose proof (ConcInv.ci_idx _ _ _ _ _ _ (ConcInv.reachable_inv H cmp A B C D nops bad ckbad thr0 E cas0 F G I g R)) as II.
+  split; [exact II|]. split.
+  - intros h c. exact (IndexProofs.C12_counts_exact cmp _ II h c).
+  - intros x. exact (IndexProofs.C12_incremental_eq_recomputed cmp _ x II).
+Qed.
+Print Assumptions C12_exact_in_every_concurrent_state.
 
 (* a snapshot load rebuilds the counts from the key map *)
 Theorem C12_load_rebuilds_counts :
